@@ -37,7 +37,10 @@ THEOREMS = [L + t for t in [
     "reads_are_writes", "send_order", "last_value_observed", "step_stacks", "send_calls_handler",
     "handler_triggers", "latchSet_sets", "send_signals", "send_signals_returned", "latch_kept",
     "latch_exchange_lossless", "exchange_idle", "exchange_once", "semSet_is_sequential", "semMask_is_sequential",
-    "run_reachable"]]
+    "run_reachable", "signal_accounting", "ready_by_enabled_send_signalled", "enabled_window_sends_raise",
+    "ready_window_polls_true", "wakeInv_reachable", "enable_then_poll_never_loses_wakeup", "enable_then_poll_never_loses_wakeup'",
+    "poll_returned_outcome", "stepSplit_back_to_back", "split_send_loses_wakeup", "split_send_loses_wakeup_flag1",
+    "wake_poll_false_irq_raised", "wake_poll_true_no_irq"]]
 TRUSTED = [
     "tools/translate_locks.py (apbp.cpp, icu.h, interpreter.h, processor.cpp, teakra.cpp, mmio.cpp -> "
     "Generated/LockTable.lean: per method the members read/written, the std::lock_guards in scope, atomic or not, the "
